@@ -679,8 +679,14 @@ async fn gen_action<S: StateRead>(
             let from_bridge = (!bridge_list.is_empty() && rng.gen_bool(0.3)) || (hostile && rng.gen_bool(0.3));
             let (from, bridge, memo, src_addr) = if from_bridge {
                 // hostile: name an ordinary (non-bridge) funded account as the "bridge" to withdraw from
-                let b = if hostile && rng.gen_bool(0.5) { any_user(rng) } else { *bridge_list.choose(rng).unwrap_or(&any_user(rng)) };
-                let w = if hostile && rng.gen_bool(0.4) { any_user(rng) } else { key_for(u, state, "bridge_withdrawer", Some(b)).await? };
+                let victim_is_plain_account = hostile && (bridge_list.is_empty() || rng.gen_bool(0.5));
+                let b = if victim_is_plain_account { any_user(rng) } else { *bridge_list.choose(rng).unwrap_or(&any_user(rng)) };
+                let w = if victim_is_plain_account || (hostile && rng.gen_bool(0.4)) {
+                    // somebody who is not the withdrawer (for a plain account there is none)
+                    (b + 1 + rng.gen_range(0..6)) % 8
+                } else {
+                    key_for(u, state, "bridge_withdrawer", Some(b)).await?
+                };
                 let ev = match (rng.gen_bool(0.2), u.old_event_id(rng, b)) {
                     (true, Some(old)) => old,
                     _ => u.next_event_id(b),
@@ -723,7 +729,7 @@ async fn gen_action<S: StateRead>(
                 memo,
                 bridge_address: bridge,
                 use_compat_address: rng.gen_bool(0.2),
-            }), if from_bridge { "ics20_withdrawal:from_bridge".into() } else { "ics20_withdrawal".into() }))
+            }), if from_bridge && hostile { "ics20_withdrawal:attack_not_withdrawer".into() } else if from_bridge { "ics20_withdrawal:from_bridge".into() } else { "ics20_withdrawal".into() }))
         }
         _ => None,
     }
@@ -750,6 +756,7 @@ fn pick_kind(rng: &mut ChaChaRng, profile: &str) -> &'static str {
     let boost = |k: &str| -> u32 {
         match (profile, k) {
             ("bridge", "bridge_lock" | "bridge_unlock" | "bridge_transfer" | "init_bridge" | "bridge_sudo_change") => 4,
+            ("authz", "ics20_withdrawal") => 5,
             ("authz", "fee_change" | "fee_asset_change" | "sudo_change" | "validator_update" | "ibc_sudo_change" | "ibc_relayer_change" | "bridge_sudo_change" | "bridge_unlock") => 4,
             ("validators", "validator_update") => 12,
             ("ledger", "transfer" | "fee_change" | "fee_asset_change") => 2,
